@@ -14,6 +14,7 @@
 EXTENDS IndexOps, TLC, Json
 
 CONSTANTS MinSteps, MaxSteps,
+          FamStreams, FamBase, FamGroups,  \* families: Stream counts / number of shapes / Record-group counts (empty = off)
           CommonU, CommonV,   \* value classes of the extra (weighting) append actions of the random walks
           Volume      \* TRUE: also offer the macro calls appendn / catn (many Records / Streams at once)
 VARIABLES st, hist, done
@@ -40,6 +41,8 @@ TinyV == {Zero, One}
 TinyP == {BigOf(4)}
 TinyF == {F(1), F(10)}
 NoValues == {}
+FamStreamsQ == 5..6   FamGroupsQ == {5}
+FamStreamsT == 5..8   FamGroupsT == {5, 6}
 
 \* volume plans: Record counts around INDEX_GROUP_SIZE = 512 and its multiples, Stream counts around 2^k
 \* (the rotations of the sequentially filled AVL trees of index.c depend on the node count only)
@@ -58,7 +61,14 @@ ASSUME \A n \in 1..3 : \A f \in {NoFlags, F(1)} : \A d \in {EmptyIndex, DoFlags(
           LET s == [recs |-> Copies(Rec(U8, One), 2), flags |-> f, pad |-> BigOf(4)]
           IN  Apply([St0 EXCEPT !.reg[1] = d], Op("catn", 1, 1, U8, One, n, 2, f)).st.reg[1] = CatNRepeated(d, s, n)
 
-Running == ~done /\ Len(hist) < MaxSteps
+\* Families of whole indexes, enumerated exhaustively: every sequence of m Streams over the FamBase shapes (empty
+\* Streams and empty Blocks make neighbouring tree nodes share an uncompressed base) and every sequence of m full
+\* Record groups that are all-empty or all-non-empty; the observation then locates every boundary -1/0/+1.
+CandStreams(s) == UNION {{Op("streams", 1, FamBase, Zero, Zero, n, m, NoFlags) : n \in 0..(IPow(FamBase, m) - 1)} : m \in FamStreams}
+CandGroups(s) == UNION {{Op("groups", 1, 0, Zero, Zero, n, m, NoFlags) : n \in 0..(IPow(2, m) - 1)} : m \in FamGroups}
+\* (a family call ends the history)
+FamDone == \E n \in 1..Len(hist) : hist[n].op \in {"streams", "groups"}
+Running == ~done /\ Len(hist) < MaxSteps /\ ~FamDone
 Do(o) == st' = Apply(st, o).st /\ hist' = Append(hist, o) /\ UNCHANGED done
 Init == st = St0 /\ hist = <<>> /\ done = FALSE
 Finish == ~done /\ Len(hist) >= MinSteps /\ done' = TRUE /\ UNCHANGED <<st, hist>>
@@ -81,6 +91,8 @@ Next == \/ Running /\ \E o \in CandInit(st) : Do(o)
         \/ Running /\ \E o \in CandAppendN(st) : Do(o)
         \/ Running /\ \E o \in CandAppendN(st) : Do(o)
         \/ Running /\ \E o \in CandCatN(st) : Do(o)
+        \/ Running /\ Len(hist) <= 1 /\ \E o \in CandStreams(st) : Do(o)
+        \/ Running /\ Len(hist) <= 1 /\ \E o \in CandGroups(st) : Do(o)
         \/ Finish
 Spec == Init /\ [][Next]_vars
 View == <<st, done>>
